@@ -153,6 +153,9 @@ func (l *listener) Accept() (transport.CapableConn, error) {
 		if !c.IsClosed() {
 			return c, nil
 		}
+		// The remote hung up while the connection was waiting in the queue.
+		// Close it anyway, otherwise its resource manager scope is never released.
+		c.Close()
 	}
 	if strings.Contains(l.err.Error(), "use of closed network connection") {
 		return nil, transport.ErrListenerClosed
